@@ -285,12 +285,12 @@ def apply_op(it, op, ctx=None):
     k = op[0]
     try:
         if k == "send":
-            y = ctx.run(it.send, op[1]) if ctx else it.send(op[1])
+            y = ctx.run(it.send, op[1]) if ctx is not None else it.send(op[1])
         elif k == "throw":
             ex = make_exn(op[1])
-            y = ctx.run(it.throw, ex) if ctx else it.throw(ex)
+            y = ctx.run(it.throw, ex) if ctx is not None else it.throw(ex)
         else:
-            (ctx.run(it.close) if ctx else it.close())
+            (ctx.run(it.close) if ctx is not None else it.close())
             return [1, []]
     except StopIteration as e:
         return [1, enc(e.value)]
@@ -446,7 +446,7 @@ def renumber(p, counter=None):
     return p
 
 
-def random_prog(rng: random.Random, size: int, in_handler=False, depth=0, vars_=False):
+def random_prog(rng: random.Random, size: int, in_handler=False, depth=0, vars_=False, oob=False):
     """random prog of roughly `size` nodes, biased towards awaits under handlers"""
     if size <= 1:
         r = rng.random()
@@ -457,7 +457,7 @@ def random_prog(rng: random.Random, size: int, in_handler=False, depth=0, vars_=
         if r < 0.72:
             return ["ret", rng.choice([None, 5, 6])]
         if r < 0.86:
-            return ["raise", rng.choice(RAISABLE)]
+            return ["raise", rng.choice(RAISABLE + ([["OOBData", 1], ["OOBData", None]] * 3 if oob else []))]
         if r < 0.92 and in_handler:
             return ["reraise"]
         if vars_ and r < 0.96:
@@ -468,20 +468,20 @@ def random_prog(rng: random.Random, size: int, in_handler=False, depth=0, vars_=
     rest = size - 1
     k = rng.randint(1, max(1, rest - 1))
     if r < 0.34:
-        a = random_prog(rng, k, in_handler, depth, vars_)
-        return ["seq", a, random_prog(rng, rest - k, in_handler, depth, vars_)]
+        a = random_prog(rng, k, in_handler, depth, vars_, oob)
+        return ["seq", a, random_prog(rng, rest - k, in_handler, depth, vars_, oob)]
     if r < 0.68:
         ncls = rng.choice([1, 1, 1, 2, 3])
         cls = rng.sample(CLS_ALL, ncls)
-        return ["try", random_prog(rng, k, in_handler, depth, vars_), cls,
-                random_prog(rng, rest - k, True, depth, vars_)]
+        return ["try", random_prog(rng, k, in_handler, depth, vars_, oob), cls,
+                random_prog(rng, rest - k, True, depth, vars_, oob)]
     if r < 0.84:
-        return ["fin", random_prog(rng, k, in_handler, depth, vars_),
-                random_prog(rng, rest - k, in_handler, depth, vars_)]
+        return ["fin", random_prog(rng, k, in_handler, depth, vars_, oob),
+                random_prog(rng, rest - k, in_handler, depth, vars_, oob)]
     if depth < 3:
-        return ["call", random_prog(rng, rest, False, depth + 1, vars_)]
-    a = random_prog(rng, k, in_handler, depth, vars_)
-    return ["seq", a, random_prog(rng, rest - k, in_handler, depth, vars_)]
+        return ["call", random_prog(rng, rest, False, depth + 1, vars_, oob)]
+    a = random_prog(rng, k, in_handler, depth, vars_, oob)
+    return ["seq", a, random_prog(rng, rest - k, in_handler, depth, vars_, oob)]
 
 
 # ----------------------------------------------------------------------------
